@@ -115,6 +115,8 @@ def load_mutants(props):
         if os.path.exists(meta_p) and os.path.exists(patch_p):
             with open(meta_p) as f:
                 meta = json.load(f)
+            if meta.get("applies_to_head") is False:
+                continue      # kept as a record: later fix: commits rewrote the lines the patch touches
             items.append({"name": os.path.basename(d), "property": meta["property"], "patch": patch_p,
                           "source": "seeded", "expect": meta.get("expect", "caught")})
     return [m for m in items if m["property"] in props]
